@@ -5,7 +5,7 @@ CONSTANTS
   Kind = "contacts"
   Atoms <- AtomsListE
   Prefix <- PfxNone
-  MaxLen = 30
+  MaxLen = 28
   Cfgs <- CfgsCont
   Junk = 34
   EmitOn = TRUE
